@@ -157,6 +157,62 @@ CLAIMED = {
         'technique': 'Lean 4 proof + kernel-decided promotion table regenerated from the source environment + differential correspondence',
         'design_ref': '§5 C20',
     },
+    'C08': {
+        'text': ('Exhaustive and kernel-checked: the table of every (operator class, lineax tag) that dispatches to True and of '
+                 'the decorator wiring (transpose is self, inverse = transpose, out_structure = in_structure) is regenerated from '
+                 'the source on every run, and Lean theorems state that every declared tag is one for which a theorem about the '
+                 'class\'s kernel exists (HWP / identity / scalar / diagonal: diagonal and symmetric; Toeplitz: symmetric; QU '
+                 'rotation: orthogonal with the transpose as adjoint), that nothing is tagged triangular, tridiagonal or '
+                 'semidefinite, that composites are never tagged, and that the wiring is exactly the expected one.  The standing '
+                 'search builds random instances of every concrete class and composites and tests every tag query and '
+                 'decorator against the dense matrix.'),
+        'note': ('Trusted: Lean kernel + Mathlib + standard axioms; the translator (tags are read with lx.is_*.dispatch(cls)); '
+                 'the diagonal-operator fact relies on C11.'),
+        'technique': 'Lean 4 proof over a finite table regenerated from the source (decide) + kernel theorems per tagged class',
+        'design_ref': '§5 C08',
+    },
+    'C11': {
+        'text': ('Lean theorems about the executable per-leaf model (constructor normalisation of axis_destination, '
+                 '_normalize_axes, left/right broadcast padding, the move-axis of the reshaped values, NumPy broadcasting, '
+                 'strict shape check): for values of any rank laid along pairwise distinct destination axes given in any '
+                 'order and sign, every output element is values[idx restricted to the axes]·x[idx] and the shape is the '
+                 'leaf\'s; unit dimensions broadcast; the general characterisation incl. axes beyond the leaf rank '
+                 '(FuraxProofs/Lemmas/DiagonalSpec.lean); scalar forms of the axis argument; the strict variant never changes a '
+                 'shape; scalar values, duplicated and incompatible axes raise ValueError and nothing else is raised; the '
+                 'pseudo-inverse satisfies the Moore-Penrose identities without dividing by zero.  Model and implementation '
+                 'are compared on leaves with pairwise distinct sizes; an independent NumPy construction is the oracle.'),
+        'note': ('Trusted: Lean kernel + standard axioms; A1 (jnp.moveaxis/reshape/broadcasting as NumPy).'),
+        'technique': 'Lean 4 proof (index arithmetic over row-major tensors) + differential correspondence',
+        'design_ref': '§5 C11',
+    },
+    'C18': {
+        'text': ('PARTIAL.  Kernel-checked table theorems regenerated from the source: every landscape class flattens to '
+                 'metadata whose keys are exactly constructor keyword arguments covering the required ones (so the '
+                 'constructor-calling unflatten round-trips), every operator class is a field-wise pytree with disjoint '
+                 'dynamic/static fields, the configuration flattens to its dataclass fields; a small model of the '
+                 'constructor-calling protocol shows the round trip is the identity under that condition and fails otherwise '
+                 '(finding F8).  Tracing is outside the model: every generated operator is applied eagerly, under jit over a '
+                 'closure, under filter_jit as an argument and after flatten/unflatten, in both 64-bit modes, and values, '
+                 'shapes and dtypes are compared; every landscape class is round-tripped.'),
+        'note': ('PARTIAL: JAX tracing / jit semantics are not modelled (A7); jit-vs-eager agreement is differential only. '
+                 'Trusted: Lean kernel + standard axioms; translator.'),
+        'technique': 'Lean 4 proof over tables regenerated from the source + differential execution in four modes',
+        'design_ref': '§5 C18',
+    },
+    'C10': {
+        'text': ('Lean theorems on flattened pytrees (FuraxModel/BlockSem.lean): the block-diagonal, block-column and block-row '
+                 'maps satisfy the algebra behind the four product rules for any number of blocks incl. one '
+                 '(diag·diag, diag·col, row·diag block-wise; row·col the sum of the products), when present in '
+                 'FuraxProofs/Lemmas/BlockLaws.lean; together with the Level-A form model of .T / .I / structures / constructor '
+                 'validation / rule application, which is compared with the implementation.  Oracle on the implementation: the '
+                 'dense matrix against numpy hstack / block_diag / vstack of the blocks\' dense matrices in pytree-leaf order for '
+                 'lists, tuples, dicts with unsorted keys, nested containers, single blocks and pytree-valued blocks; transposes; '
+                 'block-wise inverse; reduced products.'),
+        'note': ('Trusted: Lean kernel + standard axioms; encoder (containers as treedef + leaves, as JAX flattens them). The '
+                 'identification of BlockSem with the Python mv methods is by the dense-matrix oracle, not by proof.'),
+        'technique': 'Lean 4 proof (list algebra) + differential correspondence of forms + dense-matrix oracle',
+        'design_ref': '§5 C10',
+    },
 }
 
 ALL = [f'C{i:02d}' for i in range(1, 21)]
@@ -165,7 +221,10 @@ NOT_YET = 'check under construction in this session; will be claimed once its pr
 
 def main():
     checks = []
-    for pid, c in CLAIMED.items():
+    ready = {pid: c for pid, c in CLAIMED.items()
+             if os.path.exists(os.path.join(VERIF, 'lean', 'FuraxProofs', 'Audit', f'{pid}.lean'))
+             and os.path.exists(os.path.join(VERIF, 'harness', 'props', f'{pid.lower()}.py'))}
+    for pid, c in sorted(ready.items()):
         checks.append({
             'property_id': pid,
             'quick_cmd': f'./check {pid} --tier quick',
@@ -190,12 +249,12 @@ def main():
         'engines': [{
             'name': 'lean4-model',
             'path': 'lean/',
-            'serves_properties': list(CLAIMED),
+            'serves_properties': sorted(ready),
             'kind_free_text': ('Lean 4 model (FuraxModel, Mathlib-free, compiled driver) + proofs (FuraxProofs) + '
                                'tables regenerated from the source (FuraxGenerated) + Python correspondence harness'),
         }],
         'checks': checks,
-        'not_applicable': [{'property_id': p, 'reason': NOT_YET} for p in ALL if p not in CLAIMED],
+        'not_applicable': [{'property_id': p, 'reason': NOT_YET} for p in ALL if p not in ready],
         'notes': 'See DESIGN.md. known_findings.json lists recorded and fixed defects.',
     }
     with open(os.path.join(VERIF, 'MANIFEST.json'), 'w') as f:
